@@ -5,6 +5,8 @@ package main
 // candidate is a well-defined execution (the literal scheduler skips infeasible segments),
 // and it is kept iff it still fails the same oracle class.
 
+import "time"
+
 func clonePlan(p *Plan) *Plan {
 	q := &Plan{Shared: append([]opKey(nil), p.Shared...)}
 	for _, t := range p.Tasks {
@@ -29,14 +31,19 @@ func cloneCases(cs []runCase) []runCase {
 }
 
 type minimiser struct {
-	refs   *refTable
-	cls    string
-	budget int
-	execs  int
+	refs     *refTable
+	cls      string
+	budget   int
+	execs    int
+	deadline time.Time
 }
 
 func (m *minimiser) fails(cs []runCase) bool {
 	if m.budget <= 0 {
+		return false
+	}
+	if !m.deadline.IsZero() && time.Now().After(m.deadline) {
+		m.budget = 0
 		return false
 	}
 	m.budget--
